@@ -130,6 +130,36 @@ func Load(repo string, buildFlags []string, env []string) (*Engine, error) {
 			e.RepoFuncs = append(e.RepoFuncs, fn)
 		}
 	}
+	// Normalise comparisons against a constant to `value op constant` ("0 < n" becomes "n > 0", "nil != err" becomes
+	// "err != nil"): the two spellings are the same program, and the rules match the canonical one only.
+	for _, fn := range e.RepoFuncs {
+		for _, b := range fn.Blocks {
+			for _, in := range b.Instrs {
+				bo, ok := in.(*ssa.BinOp)
+				if !ok {
+					continue
+				}
+				if _, xk := bo.X.(*ssa.Const); !xk {
+					continue
+				}
+				if _, yk := bo.Y.(*ssa.Const); yk {
+					continue
+				}
+				switch bo.Op {
+				case token.EQL, token.NEQ:
+					bo.X, bo.Y = bo.Y, bo.X
+				case token.LSS:
+					bo.X, bo.Y, bo.Op = bo.Y, bo.X, token.GTR
+				case token.GTR:
+					bo.X, bo.Y, bo.Op = bo.Y, bo.X, token.LSS
+				case token.LEQ:
+					bo.X, bo.Y, bo.Op = bo.Y, bo.X, token.GEQ
+				case token.GEQ:
+					bo.X, bo.Y, bo.Op = bo.Y, bo.X, token.LEQ
+				}
+			}
+		}
+	}
 	sort.Slice(e.RepoFuncs, func(i, j int) bool {
 		a, b := e.RepoFuncs[i], e.RepoFuncs[j]
 		if a.String() != b.String() {
